@@ -39,7 +39,7 @@ ASSUMPTIONS = [
     'repr), callables, tags, sharing of lists/dicts/Buildables/sets; dict '
     'order and set order ignored',
     'the second dump is compared after parsing, with the items of set / '
-    'frozenset objects sorted',
+    'frozenset objects sorted and the debug paths of pyref entries ignored',
     'every function/class/enum member/registered constant object found in '
     'the loaded value must have been passed to allows_value and approved, and '
     'the (module, symbol) named in the document approved by allows_import',
@@ -78,6 +78,11 @@ def sort_sets(doc):
   """Sorts the items of set/frozenset objects in a parsed document."""
   if isinstance(doc, dict):
     t = doc.get('type')
+    if t == 'pyref' and 'paths' in doc:
+      # the debug "paths" of a pyref record object identity of functions /
+      # bound methods, which an import cannot (and need not) reproduce
+      doc = {k: v for k, v in doc.items() if k != 'paths'}
+      return doc
     if isinstance(t, dict) and t.get('name') in ('set', 'frozenset') and (
         'items' in doc):
       doc = dict(doc)
@@ -181,7 +186,9 @@ def leaf_values():
           collections.defaultdict(N.node)]
   out += [fdl.NO_VALUE, N.CONST, N.DictObj([1], N.CONST),
           N.DictObj(N.DictObj(1, 2), {'k': 3})]
-  out += [int, N.Base, N.node, N.Pair, len, dict, N.Base.__init__]
+  out += [int, N.Base, N.node, N.Pair, len, dict, N.Base.__init__,
+          N.MakerBase.make, N.MakerSub.make,
+          fdl.Config(N.MakerSub.make, x=1), fdl.Partial(N.MakerBase.make)]
   out += [(), (1,), ((1, 2), 'x'), [[]], {}, {'a': {}}, {1: 'int', '1': 'str'},
           {None: 0, True: 1, 1.5: 2, (1, 2): 3, N.Color.RED: 4, b'k': 5,
            frozenset({1}): 6}]
@@ -324,6 +331,8 @@ def run_shapes(k, b, res):
 # ------------------------------------------------------------ policy
 class RecPolicy(serialization.PyrefPolicy):
 
+  deny_with_none = False
+
   def __init__(self, deny_import=(), deny_value=()):
     self.deny_import = set(deny_import)
     self.deny_value = list(deny_value)       # objects, by identity
@@ -339,6 +348,8 @@ class RecPolicy(serialization.PyrefPolicy):
   def allows_value(self, value):
     ok = not any(value is d for d in self.deny_value)
     (self.approved_values if ok else self.denied_values).append(value)
+    if self.deny_with_none:
+      return True if ok else None      # "not approved" spelled as None
     return ok
 
 
@@ -494,11 +505,12 @@ def run_policy(res):
       except Exception:  # pylint: disable=broad-except
         pass
     for (m, s) in refs:
-      for how in ('import', 'value'):
-        if how == 'value' and (m, s) not in imported:
+      for how in ('import', 'value', 'value-none'):
+        if how != 'import' and (m, s) not in imported:
           continue
         pol = RecPolicy(deny_import=[(m, s)] if how == 'import' else (),
-                        deny_value=[imported[(m, s)]] if how == 'value' else ())
+                        deny_value=[imported[(m, s)]] if how != 'import' else ())
+        pol.deny_with_none = how == 'value-none'
         res.transitions += 1
         res.states += 1
         try:
